@@ -1,0 +1,34 @@
+//go:build verif
+
+package mqtt
+
+// Contracts for error wrapping (property C19). Comments only; see verif_contracts_codec.go.
+
+//@ spec
+//@ func asError(e error) *Error { x, _ := e.(*Error); return x }
+//@ func asRetryErr(e error) *errorWithRetry { x, _ := e.(*errorWithRetry); return x }
+//@ end
+
+//@ func wrapErrorImpl
+//@   mode int
+//@   props C19
+//@   pure
+//@   ensures[C19] err == nil ==> result == nil
+//@   ensures[C19] err == io.EOF ==> result == io.EOF
+//@   ensures[C19] err != nil && err != io.EOF ==> asError(result) != nil && fresh(asError(result)) && asError(result).Err == err && asError(result).Failure == failure
+
+//@ func wrapError
+//@   mode int
+//@   props C19
+//@   pure
+//@   ensures[C19] err == nil ==> result == nil
+//@   ensures[C19] err == io.EOF ==> result == io.EOF
+//@   ensures[C19] err != nil && err != io.EOF ==> asError(result) != nil && fresh(asError(result)) && asError(result).Err == err && asError(result).Failure == failure
+
+//@ func wrapErrorf
+//@   mode int
+//@   props C19
+//@   pure
+//@   ensures[C19] err == nil ==> result == nil
+//@   ensures[C19] err == io.EOF ==> result == io.EOF
+//@   ensures[C19] err != nil && err != io.EOF ==> asError(result) != nil && fresh(asError(result)) && asError(result).Err == err
